@@ -2,6 +2,7 @@
 
 from __future__ import annotations
 
+import contextlib
 import os
 import shutil
 import sqlite3
@@ -339,7 +340,10 @@ def live_session_case(ctx, hj, rng, script=None):
                               ts=[start, None], locked=True, env={})
         live = hist.filename
         if script is None:
-            script = [rng.choice(["append", "append", "append", "flush", "clear", "delete", "gc"]) for _ in range(rng.randint(2, 8))] + ["gc"]
+            script = [rng.choice(["append", "append", "append", "flush", "clear", "delete", "gc", "vanish"]) for _ in range(rng.randint(2, 8))] + ["gc"]
+            if "vanish" in script and rng.random() < 0.7:
+                # the file of the live session disappears (cleaned by hand, tmp reaper); the next flush recreates it — still locked
+                script += ["append", "flush", "gc"]
         lost = None
         n = 0
         for op in script:
@@ -360,13 +364,17 @@ def live_session_case(ctx, hj, rng, script=None):
                 except Exception as e:  # noqa: BLE001
                     lost = f"history delete raised {type(e).__name__}: {e}"
                     break
+            elif op == "vanish":
+                with contextlib.suppress(OSError):
+                    os.unlink(live)
             elif op == "gc":
+                had = os.path.exists(live)
                 unit = rng.choice(["files", "commands", "b"])
                 gc = hj.JsonHistoryGC(wait_for_shell=False, size=(rng.choice([0, 1]), unit), force=True)
                 gc.join(60)
                 if gc.is_alive():
                     raise common.InfraError("GC thread did not finish in 60 s")
-                if not os.path.exists(live):
+                if had and not os.path.exists(live):
                     lost = f"after {script[: script.index(op) + 1] if op in script else script}: GC (forced, limit <= 1 {unit}) deleted the file of the live session"
                     break
         return script, lost
@@ -379,7 +387,7 @@ def stream_live(ctx, hj, n, name="live-session"):
     ctx.stream_rule(
         name,
         "a real JsonHistory session (locked=True) appends, flushes mid-session (buffer sizes 1-50), clears and deletes from its "
-        "history while forced GC passes with limit 0/1 (files/commands/bytes) run as from another session, next to 1-4 closed "
+        "history — and its file may vanish and be recreated by the next flush — while forced GC passes with limit 0/1 (files/commands/bytes) run as from another session, next to 1-4 closed "
         "session files some of which are newer; the live session's file must never be deleted; non-trivial = script with a "
         "mid-session flush/clear/delete before a GC pass",
     )
@@ -391,7 +399,7 @@ def stream_live(ctx, hj, n, name="live-session"):
             break
         with contextlib.redirect_stdout(io.StringIO()), contextlib.redirect_stderr(io.StringIO()):
             script, lost = live_session_case(ctx, hj, ctx.rng)
-        nontriv = any(o in script[:-1] for o in ("flush", "clear", "delete"))
+        nontriv = any(o in script[:-1] for o in ("flush", "clear", "delete", "vanish"))
         ctx.case(name, tuple(script) + (i,), nontriv, {"script": script})
         for o in script:
             ctx.count(f"live/{o}")
@@ -415,7 +423,8 @@ def sqlite_case(ctx, rng, n_keep, rows):
             hs._xh_sqlite_create_history_table(c)
             for i, tsb in enumerate(rows):
                 hs._xh_sqlite_insert_command(
-                    c, {"inp": f"c{i}", "rtn": 0, "ts": (float(tsb), float(tsb) + 0.5), "out": None, "cwd": "/"}, "sess", False
+                    # (END times in an order of their own: long-running and overlapping commands; "newest" is by START time)
+                    c, {"inp": f"c{i}", "rtn": 0, "ts": (float(tsb), float(tsb) + 0.5 + rng.choice([0, 0, 3, 40, 400])), "out": None, "cwd": "/"}, "sess", False
                 )
             conn.commit()
         gc = hs.SqliteHistoryGC(wait_for_shell=False, size=(n_keep, "commands"), filename=fn)
